@@ -269,6 +269,9 @@ def gen_layout(rng, tname=None):
         out[j:j] = [("dephase",)]
         out[i:i] = [("phase", rng.choice([1, 3, 16, 255, 256, 4096, 2, 0x801]))]
     lay = {"target": t.name, "org": org, "items": [list(x) if not isinstance(x, list) else x for x in out], "nlab": nlab}
+    if rng.chance(0.15):
+        # -Y: branch-range errors of a pass that is repeated anyway are thrown away instead of ending the run
+        lay["flags"] = ["-Y"]
     if rng.chance(0.3):
         # some labels live in a SECTION of their own and are reached from outside through PUBLIC (plain name) or GLOBAL
         # (qualified alias section_label): symbol-table entries that exist beside the label proper
@@ -541,7 +544,7 @@ def check_layout(sim, lay, extras, variant, acc):
     files = {}
     passes0 = None
     for e in extras:
-        sc = asl_scenario(src, e, cap + e)
+        sc = asl_scenario(src, e, cap + e, flags=lay.get("flags", ()))
         r, san = sim.run("asl", sc, variant)
         acc["runs"] += 1
         acc["sim_us"] += r.sim_us
